@@ -35,6 +35,8 @@ pub struct ExecParams {
     /// end with a clean close and an open that does not take the old manifest and WAL over: the
     /// manifest then starts with the snapshot record of all table files
     pub final_reopen_without_reuse: bool,
+    /// one put in twelve carries a value a little longer than a block (a data block of its own)
+    pub values_longer_than_a_block: bool,
 }
 
 impl ExecParams {
@@ -50,6 +52,7 @@ impl ExecParams {
             big_values: false,
             reopen_weight: 0,
             final_reopen_without_reuse: false,
+            values_longer_than_a_block: false,
         }
     }
 
@@ -67,6 +70,7 @@ impl ExecParams {
             big_values: idx % 5 == 4,
             reopen_weight: 2,
             final_reopen_without_reuse: false,
+            values_longer_than_a_block: false,
         }
     }
 }
@@ -104,7 +108,10 @@ pub fn record_execution(rng: &mut Rng, params: &ExecParams) -> Execution {
         if roll < 55 {
             counter += 1;
             let k = rng.pick(&pool).clone();
-            let v = if params.big_values && rng.chance(0.04) {
+            let v = if params.values_longer_than_a_block && rng.chance(0.08) {
+                let extra = rng.below(60) as usize;
+                gen::tagged_value(rng, &format!("v{counter}:"), params.cfg.block + 40 + extra)
+            } else if params.big_values && rng.chance(0.04) {
                 gen::tagged_value(rng, &format!("v{counter}:"), rng.clone().range(33_000, 70_000) as usize)
             } else {
                 gen::value(rng, ValueMix::Small, &format!("v{counter}:"))
